@@ -277,6 +277,16 @@ class Emitter:
                 args[-1] = "1" if op[3] else "0"
             a = ", ".join(args + ([fl.a0] if fl.a0 else []))
             o.append("%svfb_%s(%s);" % (ind, k[1:], a))
+        elif k == "tables":
+            # load the serialized tables named by $VF_TABLES; a failing load ends the run
+            o.append("%s{ const char *vf_p = getenv(\"VF_TABLES\"); FILE *vf_f = vf_p ? fopen(vf_p, \"rb\") : 0; "
+                     "int vf_rc = vf_f ? %s : -99; char vf_b[48]; if (vf_f) fclose(vf_f); "
+                     "snprintf(vf_b, sizeof vf_b, \"tables %%d\", vf_rc ? 1 : 0); vf_X(%s, vf_b); "
+                     "if (vf_rc) { %s; %s vf_ev1(%s, \"Z\"); vf_finish(%s, 0); } }" % (
+                         ind, fl.call("yytables_fload", "vf_f"), C, fl.call("yytables_destroy"),
+                         ("vf_ledger_report(%s);" % C) if self.o.get("ledger") else "", C, C))
+        elif k == "tables_destroy":
+            o.append("%s%s;" % (ind, fl.call("yytables_destroy")))
         elif k == "setlineno":
             o.append('%svf_X(%s, "setlineno %d");' % (ind, C, op[1]))
             if self.track_ln:
@@ -434,6 +444,12 @@ class Emitter:
             opts.append("bufsize=%d" % o["bufsize"])
         if o.get("yylmax"):
             opts.append("yylmax=%d" % o["yylmax"])
+        if o.get("tables_file"):
+            opts.append('tables-file="%s"' % o["tables_file"])
+        if o.get("tables_verify"):
+            opts.append("tables-verify")
+        if o.get("prefix"):
+            opts.append('prefix="%s"' % o["prefix"])
         if o.get("reject_opt"):
             opts.append("reject")
         if o.get("nodefault"):
